@@ -19,6 +19,10 @@ type Solver struct {
 	cmd      *exec.Cmd
 	in       io.WriteCloser
 	out      *bufio.Scanner
+	lines    chan string
+	hardMs   int
+	timeoutMs int
+	restarts int
 	p        *printer
 	nvarsOut int
 	nassOut  int
@@ -60,6 +64,25 @@ func (s *Solver) modelHit(ex *Exec, g *T) bool {
 	return false
 }
 
+// restart replaces a hung solver process by a fresh one; definitions and assumptions are re-sent
+// lazily by the next feasibility check (printer state is reset), verdict cache and models are kept.
+func (s *Solver) restart() bool {
+	if s.restarts >= 8 {
+		return false
+	}
+	n := newSolver(s.timeoutMs)
+	if n == nil {
+		return false
+	}
+	s.cmd.Process.Kill()
+	go s.cmd.Wait()
+	s.cmd, s.in, s.out, s.lines, s.p = n.cmd, n.in, n.out, n.lines, n.p
+	s.nvarsOut, s.nassOut = 0, 0
+	s.restarts++
+	s.dead = false
+	return true
+}
+
 func newSolver(timeoutMs int) *Solver {
 	cmd := exec.Command("z3", "-in")
 	in, _ := cmd.StdinPipe()
@@ -70,7 +93,30 @@ func newSolver(timeoutMs int) *Solver {
 	fmt.Fprintf(in, "(set-option :timeout %d)\n%s", timeoutMs, smtPrelude)
 	sc := bufio.NewScanner(out)
 	sc.Buffer(make([]byte, 1<<20), 1<<26)
-	return &Solver{cmd: cmd, in: in, out: sc, p: newPrinter(), cache: map[*T]bool{}}
+	s := &Solver{cmd: cmd, in: in, out: sc, p: newPrinter(), cache: map[*T]bool{}, lines: make(chan string, 1024), hardMs: 10*timeoutMs + 2000, timeoutMs: timeoutMs}
+	go func() {
+		for sc.Scan() {
+			s.lines <- sc.Text()
+		}
+		close(s.lines)
+	}()
+	return s
+}
+
+// readLine returns the next output line, or ok=false if the solver does not answer within the hard
+// deadline (z3 does not always honour :timeout) or has exited; the solver is then abandoned and
+// every later feasibility question is answered "feasible" (sound: nothing is pruned).
+func (s *Solver) readLine() (string, bool) {
+	select {
+	case l, ok := <-s.lines:
+		return l, ok
+	case <-time.After(time.Duration(s.hardMs) * time.Millisecond):
+		if !s.restart() {
+			s.dead = true
+			s.cmd.Process.Kill()
+		}
+		return "", false
+	}
 }
 
 func (s *Solver) close() {
@@ -128,8 +174,13 @@ func (s *Solver) feasible0(ex *Exec, g *T, force bool) bool {
 		return true
 	}
 	ans := ""
-	for s.out.Scan() {
-		ans = s.out.Text()
+	for {
+		l, ok := s.readLine()
+		if !ok {
+			s.unknown++
+			return true
+		}
+		ans = l
 		if ans == "sat" || ans == "unsat" || ans == "unknown" {
 			break
 		}
@@ -156,8 +207,11 @@ func (s *Solver) feasible0(ex *Exec, g *T, force bool) bool {
 		q.WriteString("))\n(echo \"vh-end-model\")\n")
 		io.WriteString(s.in, q.String())
 		var mt strings.Builder
-		for s.out.Scan() {
-			l := s.out.Text()
+		for {
+			l, ok := s.readLine()
+			if !ok {
+				return true
+			}
 			if l == "vh-end-model" {
 				break
 			}
